@@ -86,6 +86,24 @@ func pick32(r *rand.Rand, xs []uint32) uint32 { return xs[r.Intn(len(xs))] }
 
 // genLayout produces a valid layout. The classes of point counts follow DESIGN.md (C01).
 func genLayout(r *rand.Rand, o layoutOpts) model.Layout {
+	for try := 0; ; try++ {
+		if try > 20 {
+			o.smallRatios = true
+			o.maxStep0 = 60
+		}
+		l := genLayoutOnce(r, o)
+		if v, _ := model.ValidLayout(l.Archs); v != model.Valid {
+			continue
+		}
+		// the clock domain must be non-empty: maxRet + 2*maxStep <= now <= 2^32-1 - 2*maxStep - 1
+		if l.MaxRet()+4*l.MaxStep()+4096 >= int64(math.MaxUint32) {
+			continue
+		}
+		return l
+	}
+}
+
+func genLayoutOnce(r *rand.Rand, o layoutOpts) model.Layout {
 	if o.maxArch == 0 {
 		o.minArch, o.maxArch = 1, 4
 	}
@@ -183,17 +201,15 @@ func genLayout(r *rand.Rand, o layoutOpts) model.Layout {
 	for i := 0; i < k; i++ {
 		l.Archs = append(l.Archs, model.Arch{Step: steps[i], Points: pts[i]})
 	}
-	if v, why := model.ValidLayout(l.Archs); v != model.Valid {
-		panic("generator produced invalid layout: " + why + " " + l.String())
-	}
 	return l
 }
 
 // genClock chooses a virtual "now" in the explored domain:
-// maxRet + 2*maxStep <= now and now + maxStep < 2^32.
+// maxRet + 2*maxStep <= now and now + 2*maxStep < 2^32 (a degenerate window at the newest
+// instant extends to alignNext(now)+step, which must still be a 32-bit time).
 func genClock(r *rand.Rand, l model.Layout) int64 {
 	lo := l.MaxRet() + 2*l.MaxStep()
-	hi := int64(math.MaxUint32) - l.MaxStep() - 1
+	hi := int64(math.MaxUint32) - 2*l.MaxStep() - 1
 	if lo > hi {
 		panic("layout too long for the clock domain")
 	}
